@@ -24,7 +24,7 @@ import kazoo.exceptions as kexc
 import kazoo.retry as kretry
 
 import simkit
-from simkit import SimCrash
+from simkit import SimCrash, HarnessError
 from simkit import clock as clockmod
 from simkit import engine as enginemod
 from simkit import log as logmod
@@ -101,11 +101,12 @@ class Api:
 
 
 class World:
-    def __init__(self, config, clock, log):
+    def __init__(self, config, clock, log, resume=None):
         self.config = config
         self.clock = clock
         self.log = log
-        self.zk = zkmod.SimZk(clock, log)
+        self.zk = zkmod.SimZk(clock, log) if resume is None \
+            else resume['zk'].clone_tree(clock)
         self.admin = self.zk.connect('admin')
         self.node = self.zk.connect('node')
         self.api = Api(self)
@@ -131,7 +132,30 @@ class World:
             'oracle_evaluations': 0}
         self.faults = {'crash': 0, 'conn_loss': 0}
         self.crash_phase = {}
-        self._setup_static()
+        if resume is None:
+            self._setup_static()
+        else:
+            self.archives = resume['archives']
+            self.last_archive_writes = resume['last_archive_writes']
+            self.last_outcome = resume['last_outcome']
+            self.probes = dict(resume['probes'])
+            self.faults = dict(resume['faults'])
+            self.fps = list(resume['fps'])
+            self.crash_phase = dict(resume['crash_phase'])
+
+    def checkpoint(self, executed, t_begin):
+        """The state after a fault-free prefix, to resume variants from (an
+        optimisation of generation mode only; execute() cross-checks it
+        against plain re-execution)."""
+        log = self.log
+        return {'zk': self.zk.clone_tree(), 'us': self.clock.us,
+                'hash': log._h.copy(), 'lines': list(log.lines),
+                'count': log.count, 'ops': list(executed),
+                't_begin': t_begin, 'archives': self.archives,
+                'last_archive_writes': self.last_archive_writes,
+                'last_outcome': self.last_outcome,
+                'probes': dict(self.probes), 'faults': dict(self.faults),
+                'fps': list(self.fps), 'crash_phase': dict(self.crash_phase)}
 
     def fail(self, viol):
         if self.violation is None and viol is not None:
@@ -599,9 +623,13 @@ class TraceSim(enginemod.Engine):
             'records whose mtimes straddle the expiry by 2 ms, server events;'
             ' batch sizes 1-7, max history 1-4.  The cron loop body (8 '
             'calls) runs once fault-free with the oracle after every call; '
-            'then the whole history is re-executed once per ZooKeeper write '
-            'k of that pass and applied in (no, yes) with a crash there '
-            '(oracle on the tree at the crash instant), a sample (quick) or '
+            'then the pass is re-executed once per ZooKeeper write k of it '
+            'and applied in (no, yes) with a crash there (on a copy of the '
+            'tree, clock and log the fault-free prefix left; the first '
+            'variant of every run and every violating variant are '
+            'cross-checked against re-execution of the whole op list, '
+            'digest for digest; oracle on the tree at the crash instant), a '
+            'sample (quick) or '
             'all (thorough) followed by a restart of the archiver to '
             'completion and the oracle again; ConnectionLoss applied / not '
             'applied at a sample (quick) or all (thorough) k.  Non-trivial: '
@@ -645,11 +673,21 @@ class TraceSim(enginemod.Engine):
             yield config, merged
 
     # ------------------------------------------------------------------
-    def _run(self, config, seed, ops, keep_log):
+    def _run(self, config, seed, ops, keep_log, resume=None,
+             checkpoint=False):
+        """Execute `ops` (None: generate).  resume: a checkpoint made by an
+        earlier call with checkpoint=True; `ops` then continue it."""
         res = enginemod.Result()
         log = logmod.EventLog(keep=keep_log)
-        log.ev('prop', 'C18')
-        clock = clockmod.Clock(config['start'])
+        if resume is None:
+            log.ev('prop', 'C18')
+            clock = clockmod.Clock(config['start'])
+        else:
+            log._h = resume['hash'].copy()
+            log.lines = list(resume['lines']) if keep_log else []
+            log.count = resume['count']
+            clock = clockmod.Clock(config['start'])
+            clock.us = resume['us']
         clock.install()
         saved_tmp = tempfile.tempdir
         _SCRATCH_N[0] += 1
@@ -660,10 +698,14 @@ class TraceSim(enginemod.Engine):
         kretry.KazooRetry = _DetRetry
         kretry.random = _NoJitter
         try:
-            world = World(config, clock, log)
-            t_begin = clock.peek()
-            executed = []
-            n = 0
+            world = World(config, clock, log, resume)
+            if resume is None:
+                t_begin = clock.peek()
+                executed = []
+            else:
+                t_begin = resume['t_begin']
+                executed = list(resume['ops'])
+            n = len(executed)
             source = iter(ops) if ops is not None else \
                 Generator(config, rngmod.Streams(seed)).history(world)
             for op in source:
@@ -674,6 +716,8 @@ class TraceSim(enginemod.Engine):
                 executed.append(op)
                 log.ev('op', op)
                 world.apply(op)
+            if checkpoint:
+                return world.checkpoint(executed, t_begin)
             res.ops = executed
             res.violation = world.violation
             res.steps = n
@@ -735,6 +779,14 @@ class TraceSim(enginemod.Engine):
             for applied in (False, True):
                 variants.append({'at': k, 'kind': 'conn_loss',
                                  'applied': applied})
+        # the fault-free prefix is executed once and resumed from (the
+        # variants differ only from op j on); cross-checked below
+        prefix = self._run(config, seed, history[:j], keep_log,
+                           checkpoint=True)
+        prefix_sim = prefix['us'] / 1000000.0 - prefix['t_begin']
+        total.steps += j
+        total.sim_s += prefix_sim
+        checked = False
         for fault in variants:
             ops_v = history[:j] + [dict(history[j], fault=fault),
                                    {'op': 'check'}]
@@ -743,11 +795,29 @@ class TraceSim(enginemod.Engine):
                            'dt': rec_rng.choice([0.5, 61.0, exp_t + 1.0])},
                           dict(history[j]), {'op': 'check'}]
                 total.probes['recoveries'] += 1
-            res = self._run(config, seed, ops_v, keep_log)
+            res = self._run(config, seed, ops_v[j:], keep_log,
+                            resume=prefix)
+            # count what was executed, not the resumed prefix
+            ran_steps = res.steps - j
+            ran_sim = res.sim_s - prefix_sim
+            if res.violation is not None or not checked:
+                # plain re-execution of the whole op list must agree
+                full = self._run(config, seed, ops_v, keep_log)
+                if full.digest != res.digest or full.ops != res.ops or \
+                        (full.violation or {}).get('sig') != \
+                        (res.violation or {}).get('sig'):
+                    raise HarnessError(
+                        'resumed variant %r differs from its re-execution: '
+                        '%s/%s vs %s/%s' % (fault, res.digest, res.violation,
+                                            full.digest, full.violation))
+                res = full
+                checked = True
+                ran_steps += full.steps
+                ran_sim += full.sim_s
             phases = res.extra['crash_phase']
             res.extra = {}
-            total.steps += res.steps
-            total.sim_s += res.sim_s
+            total.steps += ran_steps
+            total.sim_s += ran_sim
             for key, val in res.faults.items():
                 total.faults[key] = total.faults.get(key, 0) + val
             for key in ('crash_inside_upload_delete_window',
